@@ -314,6 +314,8 @@ fn spendy_block(parent: u8, picks: Vec<u16>, kern: u8) -> RawBlock {
 		diff: 1,
 		neg: Neg::None,
 		neg_pick: 0,
+			hdr: 0,
+			inp: 0,
 	}
 }
 
@@ -326,6 +328,8 @@ fn empty_block(parent: u8, cb_key: u8) -> RawBlock {
 		diff: 1,
 		neg: Neg::None,
 		neg_pick: 0,
+			hdr: 0,
+			inp: 0,
 	}
 }
 
